@@ -380,6 +380,57 @@ def oracle_big(c, r):
         return f"{c['cost']} {c['mode']}: rows {r['bad']} of a batch of {c['rows']} intervals differ from the same intervals evaluated one by one"
     return None
 
+
+# --------------------------------------------------------------------------------- long data
+
+
+def longdata_cases():
+    return [{"cost": cost, "mode": mode, "n": n} for cost in ("l2", "gvar") for mode in ("optim", "fixed") for n in (70000, 100003)]
+
+
+def impl_longdata(c):
+    """series far longer than any internal block size: intervals inside one block, straddling one boundary, and spanning
+    several (powers of two and their multiples), against the definition computed from the rows"""
+    g = np.random.default_rng(c["n"])
+    n = c["n"]
+    X = g.normal(size=(n, 2)) * 1.5 + np.array([0.5, -2.0])
+    mean, var = np.array([0.25, -1.5]), np.array([2.0, 3.0])
+    case = {"cost": c["cost"], "mode": c["mode"], "form": "float",
+            "param": None if c["mode"] == "optim" else ([0.25, -1.5] if c["cost"] == "l2" else [[0.25, -1.5], [2.0, 3.0]])}
+    try:
+        sc = mk_cost(case).fit(X)
+        marks = [1024, 4096, 8192, 16384, 32768, 65536, 98304]
+        ivs = [(0, n), (n - 5, n), (0, 5)]
+        for b in marks:
+            if b + 40 < n:
+                ivs += [(b - 30, b + 40), (b, b + 25), (b - 25, b), (max(0, b - 40000), b + 7)]
+        ivs += [(int(a), int(a) + int(L)) for a, L in zip(g.integers(0, n - 300, size=30), g.integers(2, 300, size=30))]
+        vals = sc.evaluate(np.array(ivs))
+        bad = []
+        for (s_, e_), got in zip(ivs, vals):
+            seg = X[s_:e_]
+            m = e_ - s_
+            if c["cost"] == "l2":
+                want = ((seg - (seg.mean(axis=0) if c["mode"] == "optim" else mean)) ** 2).sum(axis=0)
+            elif c["mode"] == "optim":
+                want = m * np.log(2 * np.pi * seg.var(axis=0)) + m
+            else:
+                want = m * np.log(2 * np.pi * var) + ((seg - mean) ** 2).sum(axis=0) / var
+            if not np.allclose(got, want, rtol=1e-7, atol=1e-6 * m):
+                bad.append([int(s_), int(e_), [float(v) for v in got], [float(v) for v in want]])
+        return {"outcome": "ok", "bad": bad[:2], "checked": len(ivs)}
+    except Exception as ex:
+        return {"outcome": "other:" + type(ex).__name__, "msg": str(ex)[:200]}
+
+
+def oracle_longdata(c, r):
+    if r["outcome"] != "ok":
+        return f"{c['cost']} {c['mode']} on {c['n']} rows raised {r['outcome']} {r.get('msg', '')}"
+    if r["bad"]:
+        s_, e_, got, want = r["bad"][0]
+        return f"{c['cost']} {c['mode']} cost on [{s_},{e_}) of a series of {c['n']} rows is {got}; computed directly from the rows it is {want}"
+    return None
+
 # ------------------------------------------------------------------------------------ the check
 
 
@@ -414,6 +465,7 @@ def run(chk: core.Check):
                    nontrivial=lambda c, r: r.get("outcome") == "ok" and len(r["vals"]) >= 3,
                    describe=lambda c: {k: v for k, v in c.items() if k != "X"} | {"X[:3]": c["X"][:3]})
     chk.run_stream("big-batch", big_cases(), impl_big, oracle=oracle_big, site="Cost.evaluate/batch")
+    chk.run_stream("long-data", longdata_cases(), impl_longdata, oracle=oracle_longdata, site="Cost.fit/long", per_case_timeout=120)
     # translator validation
     rng = core.rng_for(chk.seed, "C01/float")
     fc = float_cases(rng, N, status)
